@@ -147,6 +147,11 @@ def judge(scn: Dict[str, Any], obs: Dict[str, Any], *, stride_i: int = 0, zone_i
     return fails
 
 
+LOCAL_ZONES = ("UTC0", "XXX-9", "YYY5")   # POSIX TZ strings (no tzdata needed): UTC, nine hours east, five hours west
+WALL_CLOCK = ("ImmediateScheduler", "CurrentThreadScheduler", "TrampolineScheduler", "TimeoutScheduler", "NewThreadScheduler",
+              "ThreadPoolScheduler", "EventLoopScheduler", "CatchScheduler(Immediate)", "AsyncIOScheduler", "AsyncIOThreadSafeScheduler")
+
+
 def now_cases() -> List[Dict[str, Any]]:
     """(name, now value or exception) for every scheduler that can be constructed in this sandbox"""
     import asyncio
@@ -198,16 +203,42 @@ def now_cases() -> List[Dict[str, Any]]:
     return out
 
 
-def judge_now(obs: Dict[str, Any]) -> List[Dict[str, Any]]:
+def judge_now(obs: Dict[str, Any], zone: int = 0) -> List[Dict[str, Any]]:
+    """read `now` everywhere with the process's local time zone set to LOCAL_ZONES[zone] (tzset, restored afterwards)"""
+    import os
+    import time
     fails = []
-    for name, val in now_cases():
+    saved = os.environ.get("TZ")
+    os.environ["TZ"] = LOCAL_ZONES[zone]
+    time.tzset()
+    try:
+        before = time.time()
+        cases = now_cases()
+        after = time.time()
+    finally:
+        if saved is None:
+            os.environ.pop("TZ", None)
+        else:
+            os.environ["TZ"] = saved
+        time.tzset()
+    scn = {"mode": "now", "zone": zone}
+    for name, val in cases:
         if isinstance(val, Exception):
-            fails.append({"engine": "timeconv", "failure": "now_exception", "scheduler": name, "observed": repr(val), "scn": {"mode": "now"},
-                          "expected": obs})
+            fails.append({"engine": "timeconv", "failure": "now_exception", "scheduler": name, "observed": repr(val), "scn": scn,
+                          "expected": obs, "zone": zone})
             continue
         aware = isinstance(val, datetime) and val.tzinfo is not None and val.utcoffset() is not None
         off = val.utcoffset().total_seconds() if aware else None
         if aware != obs["aware"] or off != obs["utcoffset"]:
             fails.append({"engine": "timeconv", "failure": "now_not_aware_utc", "scheduler": name, "observed": repr(val),
-                          "scn": {"mode": "now"}, "expected": obs})
+                          "scn": scn, "expected": obs, "zone": zone})
+            continue
+        if name in WALL_CLOCK:
+            # the instant it denotes is the present one: between the two readings of the process clock (1 s slack),
+            # i.e. skew 0 - a reading that is off by the local UTC offset is hours away
+            secs = (val - EPOCH).total_seconds()
+            skew = 0 if before - 1.0 <= secs <= after + 1.0 else round(secs - (before + after) / 2)
+            if skew != obs["skew"]:
+                fails.append({"engine": "timeconv", "failure": "now_wrong_instant", "scheduler": name, "observed": repr(val),
+                              "skew_seconds": skew, "scn": scn, "expected": obs, "zone": zone, "local_zone": LOCAL_ZONES[zone]})
     return fails
